@@ -1,6 +1,6 @@
 (* core/src/parser.rs:139-572, 627-647, 718-844 and core/src/visitors.rs (single-file part):
    from the syn-level AST to ParsedData. *)
-From Coq Require Import String.
+From Coq Require Import String BinInt.
 From TS Require Import Model.Str Model.Outcome Model.Unicode Model.Syntax Model.Attrs Model.TargetOs
                        Model.Rename Model.Types.
 
@@ -95,7 +95,7 @@ Definition get_field_decorators (attrs : list attr) : outcome fdecmap :=
     match m with
     | MList [name] _ dargs =>
       match lang_of_str name with
-      | None => Panic "parser.rs:737"
+      | None => Ok mp                               (* a nested list that names no language is not a decorator (/repo fix) *)
       | Some l =>
         let ds := match dargs with
                   | None => []
@@ -118,7 +118,8 @@ Definition field_type (f : field) : outcome rtype :=
   | None => parse_ty (f_ty f)
   end.
 
-(* the closure at parser.rs:249-270 / 460-477 *)
+(* the closure at parser.rs:249-270 (struct fields) / 460-477 (struct-variant fields); since the /repo fix of
+   C08-flatten-variant both reject serde(flatten), so both callers pass check_flatten = true *)
 Definition parse_field (check_flatten : bool) (rename_all : option str) (f : field) : outcome rfield :=
   do t <- field_type f;
   if check_flatten && serde_flatten (f_attrs f) then Err ESerdeFlatten else
@@ -155,7 +156,7 @@ Definition parse_struct (attrs : list attr) (ident : str) (gens : list gparam) (
     | FUnnamed l =>
       match l with
       | _ :: _ :: _ => Err EComplexTupleStruct
-      | [] => Panic "parser.rs:287"                (* f.unnamed[0] on `struct S();` *)
+      | [] => Err (EUnsupportedTypeP (ident ++ lit "()"))       (* `struct S();` (/repo fix) *)
       | [f] =>
         do t <- field_type f;
         mk_alias attrs ident gens t
@@ -178,11 +179,12 @@ Definition parse_enum_variant (enum_rename_all : option str) (v : variant) : out
   | FUnnamed l =>
     match l with
     | _ :: _ :: _ => Err EMultipleUnnamed
-    | [] => Panic "parser.rs:445"                  (* .first().unwrap() on `V()` *)
+    | [] => Err (EUnsupportedTypeP (v_ident v ++ lit "()"))     (* `V()` (/repo fix) *)
     | [f] => do t <- field_type f; Ok (VTuple t sh)
     end
   | FNamed l =>
-    do fields <- mapM (parse_field false variant_rename_all) (filter (fun f => negb (is_skipped (f_attrs f))) l);
+    (* serde(flatten) on a struct-variant field is rejected like on a struct field (/repo fix of C08-flatten-variant) *)
+    do fields <- mapM (parse_field true variant_rename_all) (filter (fun f => negb (is_skipped (f_attrs f))) l);
     Ok (VAnon fields sh)
   end.
 
@@ -231,12 +233,21 @@ Definition parse_type_alias (attrs : list attr) (ident : str) (gens : list gpara
            end;
   mk_alias attrs ident gens rt.
 
-(* parser.rs:514 parse_const, 543 parse_const_expr (ExprLitVisitor keeps the FIRST literal found) *)
+(* parser.rs:543 parse_const_expr (/repo fix of C08-const-expr): an integer literal, possibly parenthesised
+   or negated; another literal is RustConstTypeInvalid, any other expression RustConstExprInvalid.
+   (-int cannot overflow: a literal is at most i128::MAX.) *)
+Fixpoint parse_const_expr (e : cexpr) : outcome Z :=
+  match e with
+  | CELit (CInt (Some z)) => Ok z
+  | CELit _ => Err EConstTypeInvalid
+  | CEParen x => parse_const_expr x
+  | CENeg x => do z <- parse_const_expr x; Ok (Z.opp z)
+  | CEOther => Err EConstExprInvalid
+  end.
+
+(* parser.rs:514 parse_const *)
 Definition parse_const (attrs : list attr) (ident : str) (t : ty) (e : cexpr) : outcome ritem :=
-  do v <- match ce_first_lit e with
-          | Some (CInt (Some z)) => Ok z
-          | _ => Err EConstTypeInvalid
-          end;
+  do v <- parse_const_expr e;
   do rt <- match get_serialized_as_type uc attrs with
            | Some s => parse_ty_str tstr s
            | None => parse_ty t
